@@ -262,6 +262,29 @@ func copyVal(v Value) Value {
 	return v
 }
 
+// assignInPlace stores v into the cell p keeping the identity of the cells of an aggregate already there:
+// addresses of fields and elements taken before the store (go/ssa computes &x.f before zeroing x for
+// `x = T{f: ...}`) stay valid, as they do in real memory.
+func assignInPlace(p *Value, v Value) {
+	switch src := v.(type) {
+	case Struct:
+		if dst, ok := (*p).(Struct); ok && len(dst) == len(src) {
+			for i := range src {
+				assignInPlace(&dst[i], src[i])
+			}
+			return
+		}
+	case Array:
+		if dst, ok := (*p).(Array); ok && len(dst) == len(src) {
+			for i := range src {
+				assignInPlace(&dst[i], src[i])
+			}
+			return
+		}
+	}
+	*p = v
+}
+
 // valEq builds the Go == relation as a Bool term.
 func (in *Interp) valEq(a, b Value) Term {
 	switch x := a.(type) {
